@@ -306,6 +306,12 @@ def m_split_once(I, state, frame, bi, t, args, span):
 
 @model("core::str::<impl str>::is_empty", "std::string::String::is_empty")
 def m_str_pred(I, state, frame, bi, t, args, span):
+    s_ = str_of(I, state, args[0])
+    if s_ is not None and s_[1] and all(p[0] == "const" for p in s_[1]):
+        vals = set(p[1] == "" for p in s_[1])
+        return [(boolean(sorted(vals)), state)]
+    if s_ is not None and s_[1] and all(p[0] == "jobid" for p in s_[1]):
+        return [(FALSE, state)]      # job ids are never empty (add_node refuses the empty id)
     return [(BOOL_TOP, state)]
 
 
@@ -1415,9 +1421,34 @@ def m_add_edge(I, state, frame, bi, t, args, span):
 
 @model("petgraph::graphmap::GraphMap::<N, E, Ty>::add_node",
        "petgraph::graphmap::GraphMap::<N, E, Ty>::new", "petgraph::algo::toposort",
-       "petgraph::graphmap::GraphMap::<N, E, Ty>::contains_node", "petgraph::graphmap::GraphMap::<N, E, Ty>::contains_edge")
+       "petgraph::graphmap::GraphMap::<N, E, Ty>::contains_node")
 def m_graph_misc(I, state, frame, bi, t, args, span):
     return [(TOP, state)]
+
+
+@model("petgraph::graphmap::GraphMap::<N, E, Ty>::contains_edge")
+def m_contains_edge(I, state, frame, bi, t, args, span):
+    """the bool form of `edge_weight(a, b).is_some()`"""
+    res = m_edge_weight(I, state, frame, bi, t, args, span)
+    out = []
+    for (rv, st) in res:
+        vs = adt_variants(rv) if rv[0] == "adt" else {0: (), 1: ()}
+        vals = ([True] if 1 in vs else []) + ([False] if 0 in vs else [])
+        out.append((boolean(vals), st))
+    return out
+
+
+@model("std::option::Option::<T>::zip")
+def m_opt_zip(I, state, frame, bi, t, args, span):
+    a, b = args[0], args[1]
+    va = adt_variants(a) if (a[0] == "adt" and a[1] == OPTION) else {0: (), 1: (TOP,)}
+    vb = adt_variants(b) if (b[0] == "adt" and b[1] == OPTION) else {0: (), 1: (TOP,)}
+    out = {}
+    if 1 in va and 1 in vb:
+        out[1] = (adt("tuple", {0: (va[1][0], vb[1][0])}),)
+    if 0 in va or 0 in vb:
+        out[0] = ()
+    return [(adt(OPTION, out), state)]
 
 
 # ---------------------------------------------------------------------------------------------
@@ -1702,6 +1733,10 @@ def m_opt_unwrap_or(I, state, frame, bi, t, args, span):
         res.append((d, state.copy()))
     if 1 in vs:
         res.append((vs[1][0], state.copy()))
+    if len(res) == 2 and state.token is None and d[0] == "adt" and d[1] == "tuple":
+        # a tuple default: keep the two alternatives apart (the components are correlated: `split_once(..).unwrap_or((s, ""))`)
+        for i_, (_rv, st_) in enumerate(res):
+            st_.token = ("alt", frame.fid, bi, i_)
     return res
 
 
